@@ -406,6 +406,14 @@ func (c *Ctx) execFrom(fs *FState, start int) ([]*FState, []retRec) {
 			fs = c.step(fs, in)
 			forks := c.forks
 			c.forks = saved
+			if c.dbgModel != nil {
+				if fs != nil {
+					c.dbgRecord(fs, in)
+				}
+				for _, f := range forks {
+					c.dbgRecord(f, in)
+				}
+			}
 			var succs []*FState
 			var rets []retRec
 			for _, f := range forks {
@@ -453,6 +461,11 @@ func (c *Ctx) edge(fs *FState, from, to *ssa.BasicBlock) []*FState {
 		}
 		for k := 0; k < np; k++ {
 			fs.regs[fi.regIdx[to.Instrs[k].(ssa.Value)]] = vals[k]
+		}
+		if c.dbgModel != nil {
+			for k := 0; k < np; k++ {
+				c.dbgRecord(fs, to.Instrs[k])
+			}
 		}
 	}
 	iters := map[int]int{}
